@@ -252,11 +252,67 @@ fn run(case: &Case, cx: &mut Cx) -> CaseResult {
     }
 }
 
+/// Scale probes (see probes.rs): validate must stay silent on a healthy 10 015-hunk version
+/// and on multi-MiB blocks, and must report hunks lost around the second index sub-directory.
+fn enumerate(_tier: Tier, idx: u32, of: u32, cx: &mut Cx) -> CaseResult {
+    if !crate::probes::mine(idx, of) {
+        return Ok(());
+    }
+    for (name, (opts, tree)) in [
+        ("many-hunks", crate::probes::many_hunks_tree(10_012)),
+        ("big-blocks", crate::probes::big_blocks_tree()),
+    ] {
+        crate::engine::heartbeat();
+        let sub = cx.dir(name);
+        std::fs::create_dir_all(&sub).unwrap();
+        let w = World::new(&sub, &tree);
+        let b = ops::backup(&w.arch, &None, &w.src, opts, &[]);
+        ensure!(!ops::backup_reported_error(&b), "C09/probe-setup", "{}", b.describe());
+        for quick in [false, true] {
+            crate::engine::heartbeat();
+            let v = ops::validate(&w.arch, &None, quick);
+            ensure!(
+                v.clean(),
+                format!("C09/healthy-archive-reported/probe-{name}"),
+                "validate(quick={quick}) on a fault-free archive reported: {}",
+                v.describe()
+            );
+            cx.add_evals(1);
+        }
+        if name == "many-hunks" {
+            let pristine = sub.join("pristine");
+            copy_dir(&w.arch, &pristine);
+            let pre = format::scan(&pristine);
+            let hunks = &pre.bands[&0].hunks;
+            for hunk_no in [9_999usize, 10_000, hunks.len() - 1] {
+                crate::engine::heartbeat();
+                crate::engine::force_remove(&w.arch);
+                copy_dir(&pristine, &w.arch);
+                let f = &hunks[hunk_no].relpath;
+                ensure!(damage::apply(&w.arch, f, Dmg::Delete), "C09/harness/probe", "no damage");
+                for quick in [false, true] {
+                    let v = ops::validate(&w.arch, &None, quick);
+                    ensure!(v.panic.is_none(), "C09/validate-panic/probe-many-hunks", "{}", v.describe());
+                    ensure!(
+                        v.reported_error(),
+                        format!("C09/damage-not-reported/{}/hunk/delete/probe-many-hunks", if quick { "quick" } else { "full" }),
+                        "{f} deleted from a complete 10 015-hunk version; validate(quick={quick}) reported nothing"
+                    );
+                    cx.add_evals(1);
+                    cx.inner_nontrivial += 1;
+                }
+            }
+        }
+        crate::engine::force_remove(&sub);
+    }
+    Ok(())
+}
+
 pub fn prop() -> Prop<Case> {
     Prop {
         id: "C09",
         level: "fault_enumeration",
-        rule: "two generated case kinds. Healthy: history as C02 (interruptions are stop-the-world before a storage operation; steps during which a band without header exists are skipped) with validate(full) and validate(quick) after every archive operation: must return Ok with no monitor error and no ERROR event. Damaged: archive from a history of <=5 ops; inner domain enumerated: every file of the archive (header, heads, tails, hunks, blocks) x {delete, truncate to 0, truncate to half, overwrite with garbage of equal length} + generated bit flips for blocks, BANDTAIL deletion excluded; for each, every complete version is restored and compared with its model snapshot and every interrupted version that has a head is restored and compared with its own pre-damage restore (deleting the last hunk of an interrupted version is exempt: indistinguishable from an earlier interruption), and if any no longer restores as before full validate must report (Err, monitor error or ERROR event), and for deletions quick validate too. Non-trivial inner = damage that changes some restore (no-effect damages are counted separately in the histogram); non-trivial healthy case = >=2 versions with an interrupted band or a delete/gc; inner values distinct by construction",
+        rule: "two generated case kinds. Healthy: history as C02 (interruptions are stop-the-world before a storage operation; steps during which a band without header exists are skipped) with validate(full) and validate(quick) after every archive operation: must return Ok with no monitor error and no ERROR event. Damaged: archive from a history of <=5 ops; inner domain enumerated: every file of the archive (header, heads, tails, hunks, blocks) x {delete, truncate to 0, truncate to half, overwrite with garbage of equal length} + generated bit flips for blocks, BANDTAIL deletion excluded; for each, every complete version is restored and compared with its model snapshot and every interrupted version that has a head is restored and compared with its own pre-damage restore (deleting the last hunk of an interrupted version is exempt: indistinguishable from an earlier interruption), and if any no longer restores as before full validate must report (Err, monitor error or ERROR event), and for deletions quick validate too. Non-trivial inner = damage that changes some restore (no-effect damages are counted separately in the histogram); non-trivial healthy case = >=2 versions with an interrupted band or a delete/gc; inner values distinct by construction. Fixed scale probes per run: validate silent on a healthy 10 015-hunk version and on multi-MiB blocks; hunks 9 999, 10 000 and the last deleted must each be reported by full and quick validate",
         assumptions: &[
             "'reported' is lenient: Err, a Monitor error, or a tracing event at ERROR level",
             "zero-length leftovers of killed writes are not part of the healthy side",
@@ -264,7 +320,7 @@ pub fn prop() -> Prop<Case> {
         cases: |t| t.pick(320, 4000),
         strategy,
         run,
-        enumerate: None,
+        enumerate: Some(enumerate),
         exhaustive: |_| false,
         max_shrink_iters: 100,
     }
